@@ -201,6 +201,43 @@ def rnd_simple(rng, depth, top=True):
         t = ['pair', x, t]
     return t
 
+def confusable_group(rng):
+    """2-4 DIFFERENT atom names of one program that a normalising layer would identify.  A relation is chosen first -
+    Unicode normal forms (NFC / NFD / NFKC / NFKD), case mappings, blanks and invisible characters around the name, the special
+    character dropped - then the name and its distinct images under it; alone, as functor names, as arguments, in lists"""
+    import unicodedata as U
+    from lib import emitcheck
+    cl = emitcheck.unicode_classes()
+    rel = rng.choice(['norm', 'norm', 'case', 'case', 'blank', 'drop'])
+    if rel == 'norm':
+        ch = rng.choice(cl[rng.choice(['norm_ascii', 'norm_ascii_prefix', 'ident_renamed'])])
+    elif rel == 'case':
+        ch = rng.choice(cl[rng.choice(['case_ascii', 'case_ascii_prefix', 're_ignorecase', 'ident_start'])])
+    else:
+        ch = emitcheck.rnd_lookalike_char(rng)
+    base = rng.choice(['', 'a', 'ab', 'Ab', 'x1', 'A']) + ch + rng.choice(['', 'b', 'B', '1', '_'])
+    if rng.random() < 0.25:
+        base = rng.choice([q for q in QUOTED if not q.isascii()])
+    if rel == 'norm': forms = [U.normalize(f, base) for f in ('NFD', 'NFC', 'NFKC', 'NFKD')] + [U.normalize('NFD', base.upper())]
+    elif rel == 'case': forms = [base.lower(), base.upper(), base.casefold(), base.swapcase(), base.title()]
+    elif rel == 'blank': forms = [base + ' ', ' ' + base, base + '\u200d', '\ufeff' + base, base + '\n', '\t' + base, base.strip() or 'a']
+    else: forms = [''.join(c for c in base if c.isascii()), ''.join(c for c in base if c.isalnum()), base[:-1], base[1:]]
+    names = [base]
+    for f in forms:
+        if f not in names and '\\' not in f:
+            names.append(f)
+    if len(names) == 1:
+        names.append(base + 'x')
+    rest = names[1:]
+    rng.shuffle(rest)
+    picked = [base] + rest[:3]
+    rng.shuffle(picked)
+    shape = rng.choice(['atom', 'atom', 'arg', 'name', 'list'])
+    if shape == 'atom': return [['atom', n] for n in picked]
+    if shape == 'arg': return [['fun', 'f', [['atom', n], ['var', 'X']]] for n in picked]
+    if shape == 'name': return [['fun', n, [['atom', 'a']]] for n in picked]
+    return [['list', [['atom', n], ['atom', picked[0]]]] for n in picked]
+
 def ambiguous_group(rng):
     """2-4 DIFFERENT literals of one program that print alike without quotes, e.g. f(a,b) f('a,b') f('a', b) 'f(a,b)'"""
     base = rnd_simple(rng, rng.choice([1, 1, 2, 2, 3]))
@@ -447,6 +484,9 @@ def gen(rng, tier):
     for _ in range(40 if tier == 'quick' else 600):
         # different literals of ONE program whose texts coincide when the quotes are left out
         cases.append(make_case(rng, ambiguous_group(rng)))
+    for _ in range(12 if tier == 'quick' else 200):
+        # different names of one program that differ only up to Unicode normalisation, case or surrounding blanks
+        cases.append(make_case(rng, confusable_group(rng)))
     for _ in range(12 if tier == 'quick' else 150):
         # atoms full of characters that text layers treat specially, alone and inside terms
         lits = [['atom', rnd_text_layer_atom(rng)], ['fun', rng.choice(FNAMES), [['atom', rnd_text_layer_atom(rng)], ['list', [['atom', rnd_text_layer_atom(rng)]]]]]]
@@ -883,6 +923,15 @@ def impl(case):
                            _succeeds(E, yp.atom(a), yp.functor(a, []))[0], _succeeds(E, yp.functor(a, []), yp2.atom(a))[0]]
         r['to_python'] = enc(E.to_python(yp.atom(a)))
         out['atoms'].append(r)
+    # atoms of different names are different objects, do not unify, and the fact at_i(name_i) does not answer for name_j
+    clash = []
+    names = case['atoms'][:8]
+    for i, a in enumerate(names):
+        for j, b in enumerate(names):
+            if i < j and (yp.atom(a) is yp.atom(b) or _succeeds(E, yp.atom(a), yp2.atom(b))[0] or _succeeds(E, yp.functor(a, [7]), yp.functor(b, [7]))[0]
+                          or sum(1 for _ in yp.query('at%d' % i, [yp.atom(b)])) or sum(1 for _ in yp.query('at%d' % j, [yp2.atom(a)]))):
+                clash.append([a, b])
+    out['atom_clashes'] = clash
     # the atom tables of two fresh engines under a sequence of atom(name) calls: which calls return the same object
     e1, e2 = E.YP(), E.YP()
     objs = [(e2 if e else e1).atom(n) for e, n in case['atom_calls']]
@@ -1022,6 +1071,8 @@ def oracle(case, io):
     r = _expected_from(case['lits'], case, io) or _entries_and_all(case['lits'], case, io)
     if r:
         return r
+    if io.get('atom_clashes'):
+        return 'atoms of different names are identified (same object, or unify, or answer each other\'s facts): %r' % (io['atom_clashes'][:3],)
     if io['nil'] != NIL_WANT:
         return 'empty list / raw Python values: %r, expected %r' % (io['nil'], NIL_WANT)
     for j, (a, o) in enumerate(zip(case['atoms'], io['atoms'])):
